@@ -137,6 +137,16 @@ class Executor:
         if v.ty is PY and type(v.py).__name__ == "Native" and is_ref(ty):
             nm = getattr(v.py.obj, "__name__", None) or type(v.py.obj).__name__
             return V(z3.Const("native.obj." + nm, Ref), ty)
+        if v.ty is PY and v.py == ("emptyset",) and isinstance(ty, SetT):
+            es = ty.elem.sort()
+            key = f"set.empty.{sort_name(es)}"
+            e0 = z3.Const(key, Ref)
+            if key not in self.model._boxed:
+                self.model._boxed.add(key)
+                x = z3.Const("sex", es)
+                self.model.add_axiom(e0 != NONE)
+                self.model.add_axiom(z3.ForAll([x], z3.Not(set_mem(e0, x, ty.elem))))
+            return V(e0, ty)
         if v.ty is TUPLE and isinstance(ty, SeqT) and len(v.py) > 0 and all(x.ty == ty.elem for x in v.py):
             # a tuple display used where a sequence is expected: a literal sequence term, characterised by a global axiom
             n = len(v.py)
